@@ -1,6 +1,7 @@
 package main
 
 import (
+	"strings"
 	"fmt"
 
 	"golang.org/x/tools/go/ssa"
@@ -22,8 +23,13 @@ func runC20(p *Program, r *Report) {
 	r.Trusted = []string{"go/packages+go/types+go/ssa (x/tools v0.29.0)", "the abstract interpreter and polynomial normal forms (checker/sym*.go, poly.go)"}
 	r.Assumptions = []string{"float64 arithmetic approximates the exact rational identities (rounding not analysed)"}
 	checkMatrixAlgebra(p, r, "C20")
+	checkPure(p, r, "C20.pure", []*ssa.Function{
+		p.Method("matrix", "Matrix3", "MulV"), p.Method("matrix", "Matrix3", "MulM"), p.Method("matrix", "Matrix3", "Transpose"),
+		p.Method("matrix", "Matrix3", "Inverse"), p.Method("matrix", "Vector3", "MulS"), p.Func("matrix", "Dot"),
+		p.Func("ciexyz", "TransformToXYZForXYYPrimaries"), p.Func("ciexyz", "TransformFromXYZForXYYPrimaries")})
 	checkPrimariesGenerators(p, r, "C20")
 	checkSingularPanics(p, r, "C20.singular")
+	r.Floor("C20.pure", 6)
 	r.Floor("C20.singular", 6)
 	r.Floor("C20.mulv", 3)
 	r.Floor("C20.mulm", 9)
@@ -314,4 +320,59 @@ func unIndex2(e *Engine, f *Form, c, r int) (*Opaque, bool) {
 	}
 	base, ok := mid.Args[0].(*Opaque)
 	return base, ok
+}
+
+// checkPure: the function modifies neither its operands (a pointer receiver
+// mutated in place) nor package-level state; the algebraic identities are then
+// statements about values, valid however often and in whatever order the
+// functions are called.
+func checkPure(p *Program, r *Report, rule string, fns []*ssa.Function) {
+	for _, fn := range fns {
+		if fn == nil {
+			continue
+		}
+		r.SawFn(shortFn(fn))
+		e := NewEngine(p)
+		e.EvalInits = true
+		e.TrackWrites = true
+		e.MaxForks = 4
+		// the other functions of the list are judged on their own: calling them is then harmless
+		self := fn
+		e.Opaque = func(g *ssa.Function) bool {
+			if g == self {
+				return false
+			}
+			for _, o := range fns {
+				if o == g {
+					return true
+				}
+			}
+			return false
+		}
+		outs := e.Run(fn, symArgs(e, fn), nil)
+		bad, n := "", 0
+		for _, o := range outs {
+			if o.Kind == "stuck" {
+				bad = "not extractable: " + o.Why
+			}
+			if o.St == nil {
+				continue
+			}
+			for _, ev := range o.St.events {
+				if ev.Kind == "write-nonlocal" {
+					n++
+					what := "its operand " + strings.TrimPrefix(ev.Fn, "*")
+					if strings.HasPrefix(ev.Fn, "g:") {
+						what = "the package-level variable " + strings.TrimPrefix(ev.Fn, "g:")
+					}
+					bad = fmt.Sprintf("%s writes to %s: a later call (or the caller) sees a different value — results depend on the call history", shortFn(fn), what)
+				}
+			}
+		}
+		if bad != "" && n == 0 {
+			r.Undecide(rule, shortFn(fn), p.FnPos(fn), bad)
+			continue
+		}
+		r.Check(bad == "", rule, shortFn(fn), p.FnPos(fn), "writes nothing but its own locals and result (no operand or package-level variable is modified)", bad)
+	}
 }
